@@ -379,6 +379,19 @@ def run(ctx):
     ctx.ob("R12.10", "header lines", not bad10, site=A.where(fl10), detail={"files": len(files10), "mismatches": bad10[:5]},
            what="load_from_file on probe files: %s" % bad10[:3])
 
+    # ---- R12.11: option symbols of a default are turned into their numbers - all of them
+    ctx.rule("R12.11", "CANONICALISE: canonicalize_arg_vals, evaluated on 10 small value lists (scalar and array defaults, known and unknown symbols, a signature shorter than the list), "
+                       "converts every option symbol whose signature position takes an integer - each element of an array default against the same signature - and returns the number it could not convert; "
+                       "a default left half-converted never equals the run-time value and the port is saved although untouched")
+    from ..rules import canon as CN
+    up11 = ctx.ast("ports.cpp")
+    try:
+        bad11, n11 = CN.check(up11)
+    except FD.Unknown as e:
+        raise AnalysisBroken("R12.11: canonicalize_arg_vals not evaluable: %s" % e)
+    ctx.ob("R12.11", "canonicalize_arg_vals", not bad11, site=A.where(up11.function("canonicalize_arg_vals")), detail={"probes": n11, "mismatches": bad11[:3]},
+           what="canonicalize_arg_vals, evaluated: %s" % [{k_: b_[k_] for k_ in ("probe", "afterwards", "returns", "expected", "expected_return")} for b_ in bad11[:2]])
+
     # ---- R12.9: the preset-specific default key
     ctx.rule("R12.9", "KEY-CAPACITY: the buffer in which get_default_value composes the preset-specific key `default <value of the depended port>` holds the annotation, a blank and any printed 32-bit integer (11 characters) with its terminator - a shorter buffer looks a two-digit preset up under the key of another preset")
     import re as _re9
